@@ -400,8 +400,8 @@ struct Live {
     peer_codec: bgp::PeerCodec,
     fams: Vec<Family>,
     counter: Arc<MessageCounter>,
+    base: u64,
     sent: u64,
-    close_tx: Option<tokio::sync::oneshot::Sender<CloseReason>>,
     handle: tokio::task::JoinHandle<()>,
     generation: i128,
     neg: Val,
@@ -419,7 +419,7 @@ impl Live {
     /// until the session task has taken everything sent so far off the wire and is idle again
     async fn sync(&self) {
         let mut spins = 0u32;
-        while self.counter.total.load(Ordering::Relaxed) < self.sent {
+        while self.counter.total.load(Ordering::Relaxed) < self.base + self.sent {
             tokio::time::sleep(Duration::from_millis(1)).await;
             spins += 1;
             assert!(spins < 5000, "verif: the session did not read the messages");
@@ -463,15 +463,18 @@ impl Live {
     }
 }
 
-#[allow(clippy::too_many_arguments)]
+/// A new connection of the neighbour, taken through the real accept_connection() (which builds
+/// the PeerSession from the Peer record, registers its close channel with the ConnArbiter and
+/// refuses an admin-down peer or a second connection) and run by the real PeerSession::run().
+/// Only the local capabilities of the case are put into the Peer record first (they differ from
+/// session to session), together with a PeerFsm that sends them.
 async fn start_session(
     global: &GlobalHandle,
     tables: &TableHandle,
-    context: &Arc<std::sync::Mutex<PeerContext>>,
     addr: IpAddr,
     local_cap: Vec<packet::Capability>,
     active_tx: &mpsc::UnboundedSender<TcpStream>,
-) -> (TcpStream, Arc<MessageCounter>, tokio::sync::oneshot::Sender<CloseReason>, tokio::task::JoinHandle<()>) {
+) -> (TcpStream, Option<(Arc<MessageCounter>, tokio::task::JoinHandle<()>)>) {
     let listener = TcpListener::bind("127.0.0.1:0").await.unwrap();
     let laddr = listener.local_addr().unwrap();
     let (client, server) = tokio::join!(TcpStream::connect(laddr), listener.accept());
@@ -480,37 +483,101 @@ async fn start_session(
     // no Nagle / delayed-ACK stalls (40 ms each) on the loopback pair
     client.set_nodelay(true).unwrap();
     server.set_nodelay(true).unwrap();
-    let mut s = PeerSession::new_for_test(addr, context.clone(), tables.clone());
-    // the FSM that sends our OPEN, built from the local capabilities of the case
-    let fsm = crate::fsm::PeerFsm::new(
-        u32::from(std::net::Ipv4Addr::new(1, 0, 0, 1)),
-        65001,
-        local_cap.clone(),
-        90,
-        0,
-        FnvHashMap::default(),
-    );
-    let arb = Arc::new(std::sync::Mutex::new(ConnArbiter::new(fsm)));
-    context.lock().unwrap().conn_arbiter = Arc::clone(&arb);
-    s.conn_arbiter = arb;
-    s.local_cap = local_cap;
-    s.stream = Some(server);
-    s.prefix_counters
-        .insert(HIDDEN, (0, Arc::new(std::sync::atomic::AtomicU64::new(0))));
-    let (close_tx, close_rx) = tokio::sync::oneshot::channel::<CloseReason>();
-    s.close_rx = Some(close_rx);
-    let counter = Arc::clone(&s.counter_rx);
-    let handle = tokio::spawn(s.run(global.clone(), active_tx.clone()));
-    (client, counter, close_tx, handle)
+    {
+        let mut g = global.write().await;
+        let peer = g.peers.get_mut(&addr).unwrap();
+        let live = {
+            let ctx = peer.context.lock().unwrap();
+            let arb = ctx.conn_arbiter.lock().unwrap();
+            arb.passive_close_tx.is_some()
+        };
+        if !live {
+            peer.config.local_cap = local_cap.clone();
+            let fsm = crate::fsm::PeerFsm::new(
+                u32::from(std::net::Ipv4Addr::new(1, 0, 0, 1)),
+                65001,
+                local_cap,
+                90,
+                0,
+                FnvHashMap::default(),
+            );
+            peer.context.lock().unwrap().conn_arbiter =
+                Arc::new(std::sync::Mutex::new(ConnArbiter::new(fsm)));
+        }
+    }
+    match accept_connection(global, tables, server, crate::fsm::Role::Passive).await {
+        None => (client, None),
+        Some(s) => {
+            let counter = Arc::clone(&s.counter_rx);
+            let handle = tokio::spawn(s.run(global.clone(), active_tx.clone()));
+            (client, Some((counter, handle)))
+        }
+    }
+}
+
+fn observe(
+    context: &Arc<std::sync::Mutex<PeerContext>>,
+    tables: &TableHandle,
+    addr: IpAddr,
+    neg: &Val,
+) -> Val {
+    let (restarting, rt, mut lts) = {
+        let ctx = context.lock().unwrap();
+        (
+            ctx.gr_state.is_peer_restarting(),
+            ctx.gr_restart_timer.as_ref().is_some_and(|t| !t.is_closed()),
+            ctx.llgr_family_timers
+                .iter()
+                .filter(|(_, t)| !t.is_closed())
+                .map(|(f, _)| fam_code(f))
+                .collect::<Vec<_>>(),
+        )
+    };
+    lts.sort();
+    let mut routes: Vec<Vec<i128>> = Vec::new();
+    for f in PROBE_FAMS {
+        for d in tables.collect_paths(table::TableQuery::AdjIn(addr), f, vec![], true) {
+            for p in d.paths {
+                let comm = comm_values(&p.attr);
+                let g = comm
+                    .iter()
+                    .find(|c| *c >> 16 == 1)
+                    .map(|c| (*c & 0xffff) as i128)
+                    .unwrap_or(-1);
+                routes.push(vec![
+                    fam_code(&f),
+                    gr_nlri_code(&d.net) * 2 + p.remote_path_id as i128,
+                    g,
+                    p.source.is_stale() as i128,
+                    p.source.is_llgr_stale() as i128,
+                    comm.contains(&0xffff_0007) as i128,
+                    comm.contains(&0xffff_0006) as i128,
+                ]);
+            }
+        }
+    }
+    routes.sort();
+    Val::L(vec![
+        Val::b(restarting),
+        Val::b(rt),
+        Val::L(lts.into_iter().map(Val::I).collect()),
+        Val::L(routes
+            .into_iter()
+            .map(|r| Val::L(r.into_iter().map(Val::I).collect()))
+            .collect()),
+        neg.clone(),
+    ])
 }
 
 async fn run_helper_case(l: &[Val]) -> Val {
     let global = mk_global();
     let tables: TableHandle = Arc::new(TableManager::new(1));
-    let context = mk_context();
-    let addr = peer_addr(1);
+    // the neighbour is the Peer record of the address its connections come from
+    let addr = IpAddr::V4(std::net::Ipv4Addr::LOCALHOST);
     let (active_tx, _active_rx) = mpsc::unbounded_channel::<TcpStream>();
     {
+        let mut limits: FnvHashMap<Family, u32> = FnvHashMap::default();
+        limits.insert(HIDDEN, 0);
         let params = PeerParams {
             remote_addr: addr,
             remote_port: Global::BGP_PORT,
@@ -529,7 +596,7 @@ async fn run_helper_case(l: &[Val]) -> Val {
             password: None,
             families: FnvHashMap::default(),
             send_max: FnvHashMap::default(),
-            prefix_limits: FnvHashMap::default(),
+            prefix_limits: limits,
             graceful_restart: None,
             llgr: None,
             bfd_config: None,
@@ -539,6 +606,7 @@ async fn run_helper_case(l: &[Val]) -> Val {
         };
         global.write().await.add_peer(params, None).expect("add_peer");
     }
+    let context = Arc::clone(&global.read().await.peers.get(&addr).unwrap().context);
     let mut live: Option<Live> = None;
     let mut generation: i128 = 0;
     let mut obs = Vec::new();
@@ -596,16 +664,25 @@ async fn run_helper_case(l: &[Val]) -> Val {
                             })),
                         ])
                     };
-                    let (client, counter, close_tx, handle) =
-                        start_session(&global, &tables, &context, addr, local_cap, &active_tx).await;
+                    let (client, started) =
+                        start_session(&global, &tables, addr, local_cap, &active_tx).await;
+                    let Some((counter, handle)) = started else {
+                        // refused (admin-down peer): the neighbour sees the socket close
+                        generation -= 1;
+                        drop(client);
+                        settle().await;
+                        obs.push(observe(&context, &tables, addr, &Val::L(vec![])));
+                        continue;
+                    };
+                    let base = counter.total.load(Ordering::Relaxed);
                     let mut lv = Live {
                         client,
                         rxbuf: bytes::BytesMut::new(),
                         peer_codec: bgp::PeerCodec::new(),
                         fams: fams.clone(),
                         counter,
+                        base,
                         sent: 0,
-                        close_tx: Some(close_tx),
                         handle,
                         generation,
                         neg,
@@ -710,7 +787,13 @@ async fn run_helper_case(l: &[Val]) -> Val {
                             lv.finished().await;
                         }
                         7 => {
-                            let _ = lv.close_tx.take().unwrap().send(CloseReason::AdminShutdown);
+                            // disable_peer: the close channel accept_connection registered
+                            let tx = {
+                                let ctx = context.lock().unwrap();
+                                let mut arb = ctx.conn_arbiter.lock().unwrap();
+                                arb.passive_close_tx.take()
+                            };
+                            let _ = tx.expect("verif: no close channel").send(CloseReason::AdminShutdown);
                             lv.finished().await;
                         }
                         t => panic!("verif: reason {} cannot be produced on a socket", t),
@@ -719,13 +802,21 @@ async fn run_helper_case(l: &[Val]) -> Val {
             }
             4 => {
                 // a connection that ends before Established: the neighbour connects and leaves
-                let (client, _counter, _close_tx, handle) =
-                    start_session(&global, &tables, &context, addr, caps_of(&[Family::IPV4], 65001, &Val::L(vec![]), &Val::L(vec![])), &active_tx).await;
+                let (client, started) = start_session(
+                    &global,
+                    &tables,
+                    addr,
+                    caps_of(&[Family::IPV4], 65001, &Val::L(vec![]), &Val::L(vec![])),
+                    &active_tx,
+                )
+                .await;
                 drop(client);
-                tokio::time::timeout(Duration::from_secs(15), handle)
-                    .await
-                    .expect("verif: the connection attempt did not end")
-                    .expect("verif: session task panicked");
+                if let Some((_counter, handle)) = started {
+                    tokio::time::timeout(Duration::from_secs(15), handle)
+                        .await
+                        .expect("verif: the connection attempt did not end")
+                        .expect("verif: session task panicked");
+                }
             }
             5 => {
                 let tx = {
@@ -755,7 +846,11 @@ async fn run_helper_case(l: &[Val]) -> Val {
                 }
             }
             7 => {
+                // fires the armed timers and tells the live session (if any) to close
                 context.lock().unwrap().force_down(CloseReason::Silent, false);
+                if let Some(lv) = live.take() {
+                    lv.finished().await;
+                }
             }
             8 => {
                 // disable_peer / enable_peer set this field of the Peer record
@@ -764,56 +859,11 @@ async fn run_helper_case(l: &[Val]) -> Val {
             t => panic!("verif: bad helper event {}", t),
         }
         settle().await;
-        let (restarting, rt, mut lts) = {
-            let ctx = context.lock().unwrap();
-            (
-                ctx.gr_state.is_peer_restarting(),
-                ctx.gr_restart_timer.as_ref().is_some_and(|t| !t.is_closed()),
-                ctx.llgr_family_timers
-                    .iter()
-                    .filter(|(_, t)| !t.is_closed())
-                    .map(|(f, _)| fam_code(f))
-                    .collect::<Vec<_>>(),
-            )
-        };
-        lts.sort();
-        let mut routes: Vec<Vec<i128>> = Vec::new();
-        for f in PROBE_FAMS {
-            for d in tables.collect_paths(table::TableQuery::AdjIn(addr), f, vec![], true) {
-                for p in d.paths {
-                    let comm = comm_values(&p.attr);
-                    let g = comm
-                        .iter()
-                        .find(|c| *c >> 16 == 1)
-                        .map(|c| (*c & 0xffff) as i128)
-                        .unwrap_or(-1);
-                    routes.push(vec![
-                        fam_code(&f),
-                        gr_nlri_code(&d.net) * 2 + p.remote_path_id as i128,
-                        g,
-                        p.source.is_stale() as i128,
-                        p.source.is_llgr_stale() as i128,
-                        comm.contains(&0xffff_0007) as i128,
-                        comm.contains(&0xffff_0006) as i128,
-                    ]);
-                }
-            }
-        }
-        routes.sort();
         let neg = match live.as_ref() {
             None => Val::L(vec![]),
             Some(lv) => lv.neg.clone(),
         };
-        obs.push(Val::L(vec![
-            Val::b(restarting),
-            Val::b(rt),
-            Val::L(lts.into_iter().map(Val::I).collect()),
-            Val::L(routes
-                .into_iter()
-                .map(|r| Val::L(r.into_iter().map(Val::I).collect()))
-                .collect()),
-            neg,
-        ]));
+        obs.push(observe(&context, &tables, addr, &neg));
     }
     // leave no session task behind
     if let Some(lv) = live.take() {
